@@ -80,6 +80,10 @@ def _case(draw):
             fn = tdoc.sq([tdoc.sc('y')], flow=True, tag='!path:abs(/x)')
         else:
             fn = tdoc.mp([('x', tdoc.sc(ctr[0])), ('y', tdoc.sq([tdoc.sc(1)], flow=True))], flow=True, tag=f'!{kind}:vfrec.call_{ctr[0]}')
+            if kind == 'bind' and draw(st.booleans()):
+                # a target with named parameters (b0, b1 positional-or-keyword, k0 keyword-only), its children named after them
+                fn = tdoc.mp([('b0', tdoc.sc(ctr[0])), ('b1', tdoc.sq([tdoc.sc(True)], flow=True)), ('k0', tdoc.sc(2.5))][:draw(st.integers(1, 3))],
+                             flow=True, tag='!bind:vfrec.sig_0_2_1_1_0_0_c11')
         if draw(st.booleans()):
             fn = tdoc.mp([('c', fn), ('l', tdoc.sq([tdoc.mp([('z', tdoc.sc(0))], flow=True, tag=f'!bind:vfrec.call_{ctr[0] + 100}')]))])
         docs[draw(st.integers(0, len(docs) - 1))]['items'].append([f'dyn{ctr[0]}', fn])
@@ -149,6 +153,20 @@ def mirror(node, val, path, src):
             raise Violation(f'C11: list at {path} has {len(val)} elements, merged tree has {node.ayns.children_count()}{src}')
         for i, child in enumerate(node.ayns.children()):
             mirror(child, val[i], path + [i], src)
+    elif tn == 'BindNode':
+        # a partial holds the children of the node as they are written: integer keys (a gap-free run from 0) positionally, names as keywords
+        if not isinstance(val, functools.partial):
+            raise Violation(f'C11: !bind node at {path} evaluated to {type(val).__name__}, not a functools.partial{src}')
+        names = [k.ayns.native_value if isinstance(k, ConfigNode) else k for k in node.ayns.children_names()]
+        ints = sorted(k for k in names if isinstance(k, int) and not isinstance(k, bool))
+        strs = [k for k in names if isinstance(k, str)]
+        if ints == list(range(len(ints))) and len(ints) + len(strs) == len(names):
+            if len(val.args) != len(ints) or sorted(val.keywords) != sorted(strs):
+                raise Violation(f'C11: !bind node at {path} has positional children {ints} and named children {strs}, but the partial holds '
+                                f'args={val.args!r} keywords={val.keywords!r}{src}')
+            for k, child in node.ayns.named_children():
+                kk = k.ayns.native_value if isinstance(k, ConfigNode) else k
+                mirror(child, val.args[kk] if isinstance(kk, int) else val.keywords[kk], path + [kk], src)
     elif tn.startswith('ConfigScalar('):
         if type(val) not in BUILTIN_SCALARS:
             raise Violation(f'C11: scalar node at {path} evaluated to {type(val).__name__} ({val!r}), not an exact builtin type{src}')
